@@ -26,8 +26,8 @@ NOTE = ["'refused' = any exception (the library uses ModelDefinitionError, Model
 PARTIAL = ["extra_validation (nonlinsolve) is not exercised"]
 
 KINDS_UI = ["K1", "K2", "K3", "K4", "K5", "K6"]
-KINDS_CAL = ["K7", "K7b", "K8", "K9"]
-KINDS_EKF = ["K10", "K10b", "K11a", "K11b", "K11c", "K12", "K12b", "K12c", "K13", "K13b", "K13c", "K14", "K15", "K16", "K17", "K18", "K19",
+KINDS_CAL = ["K7", "K7b", "K8", "K9", "K9b"]
+KINDS_EKF = ["K10", "K10b", "K11a", "K11b", "K11c", "K12", "K12b", "K12c", "K13", "K13b", "K13c", "K14", "K15", "K16", "K17", "K17z", "K18", "K19",
              "V1", "V2"]       # V*: variants that are still structurally VALID (must be accepted)
 
 
@@ -45,13 +45,15 @@ class Spec:
         self.sensor_noise = {k: {r: float(v) for r, v in rd.items()} for k, rd in sensor.items()}
         self.reading_syms = reading_syms
         self.calmap_omitted = False
+        self.calmap_assumed = None      # name of a calibration key given as Symbol(name, real=True) instead of the declared symbol
         self.noise_dups = []     # (sensor key, reading name, value): a SECOND noise entry for that reading, keyed by the other key type
         self.dt = d.dt
 
     def vdef(self):
         return {
             "state": self.state, "control": self.control, "calibration": self.calibration,
-            "updateKeys": list(self.update), "calKeys": [] if self.calmap_omitted else list(self.calmap),
+            "updateKeys": list(self.update),
+            "calKeys": [] if self.calmap_omitted else [(k + "#real" if k == self.calmap_assumed else k) for k in self.calmap],
             "noise": [["sym" if k == "sym" else "other", n, core.frac_str(__import__("fractions").Fraction(v))] for k, n, v in self.noise],
             "sensors": [{"key": k, "readings": [[r, sorted(s.name for s in sympy.sympify(e).free_symbols)] for r, e in rd.items()]}
                         for k, rd in self.sensors.items()],
@@ -91,7 +93,8 @@ class Spec:
         return dict(process_noise=noise,
                     sensor_models={k: {self.rk(r): e for r, e in rd.items()} for k, rd in self.sensors.items()},
                     sensor_noises=sn,
-                    calibration_map=None if self.calmap_omitted else {Symbol(k): v for k, v in self.calmap.items()})
+                    calibration_map=None if self.calmap_omitted else
+                    {(Symbol(k, real=True) if k == self.calmap_assumed else Symbol(k)): v for k, v in self.calmap.items()})
 
 
 def fresh(rng, spec):
@@ -127,6 +130,12 @@ def inject(rng, spec, kind, pos=None):
             s.calmap[fresh(rng, s)] = 1.0
         elif kind == "K9":
             k = pick(sorted(s.calmap)); s.calmap.pop(k); s.calmap[fresh(rng, s)] = 1.0
+        elif kind == "K9b":
+            # one calibration value is given for ANOTHER symbol of the same name (one that carries a sympy assumption): the declared
+            # symbol has no value
+            if not s.calmap:
+                return None
+            s.calmap_assumed = pick(sorted(s.calmap))
         elif kind == "K10":
             s.noise.remove(pick(s.noise))
         elif kind == "K10b":
@@ -168,6 +177,13 @@ def inject(rng, spec, kind, pos=None):
             s.sensor_noise["extra9"] = {"q": 1.0}
         elif kind == "K17":
             key = pick([k for k in sorted(s.sensor_noise) if len(s.sensor_noise[k]) >= 1]); del s.sensor_noise[key][pick(sorted(s.sensor_noise[key]))]
+        elif kind == "K17z":
+            # the noise entry of the alphabetically LAST reading of a sensor with two or more readings is missing
+            keys = [k for k in sorted(s.sensor_noise) if len(s.sensor_noise[k]) >= 2]
+            if not keys:
+                return None
+            key = pick(keys)
+            del s.sensor_noise[key][sorted(s.sensor_noise[key])[-1]]
         elif kind == "K18":
             key = pick(sorted(s.sensor_noise)); r = pick(sorted(s.sensor_noise[key])); v = s.sensor_noise[key].pop(r); s.sensor_noise[key][fresh(rng, s)] = v
         elif kind in ("K13c", "V2"):
@@ -208,7 +224,7 @@ def inject(rng, spec, kind, pos=None):
 
 def positions(spec, kind):
     n = {"K1": len(spec.state), "K2": len(spec.state), "K3": len(spec.control), "K4": len(spec.update), "K6": len(spec.update),
-         "K7": len(spec.calmap), "K9": len(spec.calmap), "K10": len(spec.noise), "K11a": len(spec.state), "K11c": len(spec.noise),
+         "K7": len(spec.calmap), "K9": len(spec.calmap), "K9b": len(spec.calmap), "K10": len(spec.noise), "K11a": len(spec.state), "K11c": len(spec.noise),
          "K12": len(spec.noise), "V1": len(spec.noise), "K12b": len(spec.noise), "K12c": len(spec.noise), "K19": len(spec.sensor_noise), "K10b": len(spec.noise), "K13": len(spec.sensors), "K13b": len(spec.sensors), "K14": len(spec.sensors), "K15": len(spec.sensor_noise),
          "K17": len(spec.sensor_noise), "K18": len(spec.sensor_noise)}.get(kind, 1)
     return range(max(n, 0))
@@ -294,6 +310,10 @@ def run(ctx):
     for i in range(ndefs):
         d = gen.gen_definition(ctx.rng, n_state=ctx.rng.choice([2, 3]), n_control=ctx.rng.choice([1, 2]), n_calib=ctx.rng.choice([1, 2]),
                                n_sensors=ctx.rng.choice([1, 2]), depth=1, max_readings=2)
+        if i % 3 == 0:   # string-keyed stream: make sure one sensor has two readings (faults that need a first and a last reading)
+            k0 = sorted(d.sensors)[0]
+            while len(d.sensors[k0]) < 2:
+                d.sensors[k0][gen.fresh_names(ctx.rng, 1, {s.name for s in d.all_symbols()} | set(d.sensors[k0]))[0]] = d.state[0] * 3 + d.state[-1]
         if i % 3 == 2:   # Symbol-keyed stream: make sure one sensor has two readings
             k0 = sorted(d.sensors)[0]
             while len(d.sensors[k0]) < 2:
